@@ -25,6 +25,9 @@ pub struct AnsiElementIterator<'a> {
 
     // Byte offset of most rightward byte processed so far
     pos: usize,
+
+    // Whether the parser is inside an escape sequence which it has not finished parsing.
+    in_sequence: bool,
 }
 
 #[derive(Default)]
@@ -35,6 +38,12 @@ struct Performer {
 
     // Number of text bytes seen since the last element was emitted.
     text_length: usize,
+
+    // Number of those which are control characters.
+    control_length: usize,
+
+    // Whether an escape sequence ended at this byte.
+    sequence_end: bool,
 }
 
 #[derive(Clone, Debug, PartialEq)]
@@ -71,6 +80,7 @@ impl<'a> AnsiElementIterator<'a> {
             text_end: 0,
             start: 0,
             pos: 0,
+            in_sequence: false,
         }
     }
 
@@ -78,10 +88,25 @@ impl<'a> AnsiElementIterator<'a> {
         let mut performer = Performer::default();
         self.machine.advance(&mut performer, byte);
         self.element = performer.element;
-        self.text_length += performer.text_length;
         self.pos += 1;
-        if performer.text_length > 0 {
+        // A control character inside an escape sequence does not end it: it is not text that
+        // precedes the sequence, so it counts as part of the sequence.
+        let text_length = if self.in_sequence {
+            performer.text_length - performer.control_length
+        } else {
+            performer.text_length
+        };
+        self.text_length += text_length;
+        if text_length > 0 {
             self.text_end = self.pos;
+        }
+        const ESC: u8 = 0x1b;
+        const CAN: u8 = 0x18;
+        const SUB: u8 = 0x1a;
+        if byte == ESC {
+            self.in_sequence = true;
+        } else if performer.sequence_end || text_length > 0 || byte == CAN || byte == SUB {
+            self.in_sequence = false;
         }
     }
 }
@@ -135,6 +160,7 @@ impl Iterator for AnsiElementIterator<'_> {
 // Based on https://github.com/alacritty/vte/blob/v0.9.0/examples/parselog.rs
 impl anstyle_parse::Perform for Performer {
     fn csi_dispatch(&mut self, params: &Params, intermediates: &[u8], ignore: bool, byte: u8) {
+        self.sequence_end = true;
         if ignore || intermediates.len() > 1 {
             // Not interpreted, but its bytes are still an escape sequence and not text.
             self.element = Some(Element::Csi(0, 0));
@@ -166,6 +192,7 @@ impl anstyle_parse::Perform for Performer {
         // E.g. '\n'
         if byte < 128 {
             self.text_length += 1;
+            self.control_length += 1;
         }
     }
 
@@ -176,10 +203,12 @@ impl anstyle_parse::Perform for Performer {
     fn unhook(&mut self) {}
 
     fn osc_dispatch(&mut self, _params: &[&[u8]], _bell_terminated: bool) {
+        self.sequence_end = true;
         self.element = Some(Element::Osc(0, 0));
     }
 
     fn esc_dispatch(&mut self, _intermediates: &[u8], _ignore: bool, _byte: u8) {
+        self.sequence_end = true;
         self.element = Some(Element::Esc(0, 0));
     }
 }
